@@ -166,6 +166,10 @@ type Engine struct {
 	CompactionPlan CompactionPlanner
 	FileStore      *FileStore
 
+	// snapshotSegments are the closed WAL segments covered by the pending cache
+	// snapshot. It is only accessed with mu held exclusively in WriteSnapshot.
+	snapshotSegments []string
+
 	MaxPointsPerBlock int
 
 	// CacheFlushMemorySizeThreshold specifies the minimum size threshold for
@@ -1968,6 +1972,16 @@ func (e *Engine) WriteSnapshot() (err error) {
 		snapshot, err = e.Cache.Snapshot()
 		if err != nil {
 			return
+		}
+
+		// A snapshot that failed earlier is retried as it was taken: it holds what the
+		// segments closed at that time hold and nothing newer. Writes made since then
+		// are only in the cache and in the segments closed just now, so only the
+		// segments of the original attempt may be removed once the retry is installed.
+		if e.Cache.snapshotRetried() {
+			segments = e.snapshotSegments
+		} else {
+			e.snapshotSegments = segments
 		}
 
 		return
